@@ -367,6 +367,9 @@ def update_parameters(json_object, parameters) -> None:
                         del json_object[key]
                 # set new tensor
                 json_object['tensor'] = parameters[json_object['id']]['tensor']
+                # its dtype may have come from the keys removed above (full_like...)
+                if 'dtype' in parameters[json_object['id']]:
+                    json_object['dtype'] = parameters[json_object['id']]['dtype']
         else:
             for value in json_object.values():
                 update_parameters(value, parameters)
